@@ -3,6 +3,7 @@ package c20
 import (
 	"encoding/hex"
 	"fmt"
+	"sync"
 	"testing"
 
 	"github.com/markkurossi/mpc/bmr"
@@ -28,6 +29,10 @@ type FxCase struct {
 	Seed uint64 `json:"seed"`
 	OT   string `json:"ot"` // co | cot | cot-mal
 	Ops  []FxOp `json:"ops"`
+	// More are further sessions (own OT pair, own pipe) that run at the same
+	// time as the first one in this process: a BMR player serves every peer
+	// from its own goroutine, so the gadgets of different pairs overlap.
+	More [][]FxOp `json:"more,omitempty"`
 }
 
 var otKinds = []string{"co", "cot", "cot-mal"}
@@ -70,6 +75,18 @@ func genFx(t *rapid.T) FxCase {
 	for i := 0; i < n; i++ {
 		cs.Ops = append(cs.Ops, drawOp(t))
 	}
+	// One case in three: 1-3 more sessions at the same time.
+	if rapid.IntRange(0, 2).Draw(t, "concurrent") == 0 {
+		k := rapid.IntRange(1, 3).Draw(t, "more")
+		for j := 0; j < k; j++ {
+			var ops []FxOp
+			m := rapid.IntRange(4, 16).Draw(t, "nops")
+			for i := 0; i < m; i++ {
+				ops = append(ops, drawOp(t))
+			}
+			cs.More = append(cs.More, ops)
+		}
+	}
 	return cs
 }
 
@@ -100,6 +117,50 @@ type fxResult struct {
 }
 
 func runFx(cs FxCase) ev.Outcome {
+	if len(cs.More) == 0 {
+		return runFxSession(cs.OT, cs.Seed, 0, cs.Ops)
+	}
+	if len(cs.More) > 7 {
+		return ev.Outcome{Skip: "more than 8 sessions"}
+	}
+	sessions := append([][]FxOp{cs.Ops}, cs.More...)
+	outs := make([]ev.Outcome, len(sessions))
+	var wg sync.WaitGroup
+	for i := range sessions {
+		wg.Add(1)
+		go func(i int) {
+			defer wg.Done()
+			outs[i] = runFxSession(cs.OT, cs.Seed, uint64(16*i), sessions[i])
+		}(i)
+	}
+	wg.Wait()
+	total := ev.OK(true)
+	seen := map[string]bool{fmt.Sprintf("concurrent-sessions=%d", len(sessions)): true}
+	for i, o := range outs {
+		if o.Skip != "" {
+			return o
+		}
+		if o.Err != "" {
+			o.Sig = "concurrent/" + o.Sig
+			o.Err = fmt.Sprintf("session %d of %d concurrent sessions: %s", i, len(sessions), o.Err)
+			return o
+		}
+		total.Evals += o.Evals
+		for _, c := range o.Classes {
+			seen[c] = true
+		}
+	}
+	for c := range seen {
+		total.Classes = append(total.Classes, c)
+	}
+	sortStrings(total.Classes)
+	return total
+}
+
+// runFxSession runs one OT pair and its gadget calls; stream separates the
+// random streams of concurrent sessions.
+func runFxSession(kind string, seed, stream uint64, sops []FxOp) ev.Outcome {
+	cs := FxCase{Seed: seed, OT: kind, Ops: sops}
 	known := false
 	for _, k := range otKinds {
 		known = known || k == cs.OT
@@ -144,7 +205,7 @@ func runFx(cs FxCase) ev.Outcome {
 			fp.Close()
 			fp.Drain()
 		}()
-		oti := newOT(cs.OT, cs.Seed, 1)
+		oti := newOT(cs.OT, cs.Seed, stream+1)
 		if err := oti.InitSender(fp); err != nil {
 			return fmt.Errorf("InitSender: %w", err)
 		}
@@ -164,7 +225,7 @@ func runFx(cs FxCase) ev.Outcome {
 			tp.Close()
 			tp.Drain()
 		}()
-		oti := newOT(cs.OT, cs.Seed, 3)
+		oti := newOT(cs.OT, cs.Seed, stream+3)
 		if err := oti.InitReceiver(tp); err != nil {
 			return fmt.Errorf("InitReceiver: %w", err)
 		}
